@@ -1,7 +1,9 @@
 import Driver.Util
 import Driver.Encode
+import Driver.EncodeMore
 import Model.Encode
 import Model.EncodeAccepted
+import Model.EncodeAcceptedMore
 /-!
 JSON op `encode_total`: the hypotheses and the conclusion of `Props/C01total.lean` (`C01_encode_total`) evaluated on
 one post-construction state (+ the measured string widths), in the encoding of `Driver/Encode.lean`:
@@ -11,8 +13,18 @@ one post-construction state (+ the measured string widths), in the encoding of `
    "holds": b}
 
 `holds` = the statement of the theorem on this input: not (accepted ∧ shapes ∧ measure_ok), or the model returns a
-document, or it raises `ValueError` and the keys are not contiguous.  It is `true` on every input (that is the
+document and the keys are contiguous, or it raises `ValueError` and the keys are not contiguous (the refusal is decided
+by the data alone: `C01_encode_refused_iff`, `C01_encodeM_refused_iff` of `Props/C01totalmore.lean`).  It is `true` on every input (that is the
 theorem); the harness asserts it, so a driver / model that no longer satisfies the statement is seen at run time too.
+
+Likewise for `Props/C01totalmore.lean`:
+
+  {"op": "encode_total_multi", "doc": <as encode_multi>, "widths": […]}  ↦ the same object for `C01_encodeM_total`
+     (`contiguous` = the keys of EVERY section are contiguous; + "sections": n,
+      "section_shapes" / "section_contiguous": one Boolean per `temp_document`)
+  {"op": "encode_total_figure", "doc": <as encode_figure>}  ↦
+     {"accepted": b, "shapes": b, "result": "ok" | "empty" | <error kind>, "holds": b}  for `C01_encodeF_total`
+     (`holds` = not (accepted ∧ shapes), or the model returns a document)
 -/
 namespace Driver
 open Lean Model.Encode Model.EncodeAccepted
@@ -27,12 +39,47 @@ def opEncodeTotal (j : Json) : R Json := do
   let res := match encode measure d with
     | .ok _ => "ok"
     | .error e => e
-  let holds := !(acc && shp && mok) || res == "ok" || (res == "ValueError" && !contig)
+  let holds := !(acc && shp && mok) || (res == "ok" && contig) || (res == "ValueError" && !contig)
   return Json.mkObj [("accepted", Json.bool acc), ("shapes", Json.bool shp), ("measure_ok", Json.bool mok),
     ("contiguous", Json.bool contig), ("requests", Json.num (JsonNumber.fromNat (requests d).length)),
     ("result", Json.str res), ("holds", Json.bool holds)]
 
+def opEncodeTotalMulti (j : Json) : R Json := do
+  let d ← asMDocE (← fld j "doc")
+  let measure := mkMeasure (← listF asWidthEntry j "widths")
+  let acc := Model.EncodeAcceptedMore.acceptedM d
+  let shp := Model.EncodeAcceptedMore.shapesInQuantifierM d
+  let mok := Model.EncodeAcceptedMore.measureOkM measure d
+  let contig := Model.EncodeAcceptedMore.groupKeysContiguousM d
+  let sds := Model.EncodeMulti.sectionDocs d
+  let res := match Model.EncodeMulti.encodeM measure d with
+    | .ok _ => "ok"
+    | .error e => e
+  let holds := !(acc && shp && mok) || (res == "ok" && contig) || (res == "ValueError" && !contig)
+  return Json.mkObj [("accepted", Json.bool acc), ("shapes", Json.bool shp), ("measure_ok", Json.bool mok),
+    ("contiguous", Json.bool contig),
+    ("requests", Json.num (JsonNumber.fromNat (Model.EncodeAcceptedMore.requestsM d).length)),
+    ("sections", Json.num (JsonNumber.fromNat sds.length)),
+    ("section_accepted", Json.arr (sds.map fun sd => Json.bool (accepted sd)).toArray),
+    ("section_shapes", Json.arr (sds.map fun sd => Json.bool (shapesInQuantifier sd)).toArray),
+    ("section_contiguous", Json.arr (sds.map fun sd => Json.bool (groupKeysContiguous sd)).toArray),
+    ("result", Json.str res), ("holds", Json.bool holds)]
+
+def opEncodeTotalFigure (j : Json) : R Json := do
+  let d ← asFDocE (← fld j "doc")
+  let acc := Model.EncodeAcceptedMore.acceptedF d
+  let shp := Model.EncodeAcceptedMore.shapesInQuantifierF d
+  let res := match Model.EncodeFigure.encodeWithF d with
+    | .ok (some _, _) => "ok"
+    | .ok (none, _) => "empty"
+    | .error e => e
+  let holds := !(acc && shp) || res == "ok"
+  return Json.mkObj [("accepted", Json.bool acc), ("shapes", Json.bool shp), ("result", Json.str res),
+    ("holds", Json.bool holds)]
+
 namespace EncodeTotal
-def ops : List (String × (Json → R Json)) := [("encode_total", opEncodeTotal)]
+def ops : List (String × (Json → R Json)) :=
+  [("encode_total", opEncodeTotal), ("encode_total_multi", opEncodeTotalMulti),
+   ("encode_total_figure", opEncodeTotalFigure)]
 end EncodeTotal
 end Driver
